@@ -85,11 +85,11 @@ where noRepeatedHeadList : List σ → List (Tok σ) → Bool
 open PS.G
 
 /-- shape of a table built by `CFG.depth_constraint`: unique keys, the start symbol is a key at
-    depth 0, a leaf rule carries a symbol of the non-terminal's type, every argument of a rule is
+    depth 0 whose type is not an arrow, a leaf rule carries a symbol of the non-terminal's type, every argument of a rule is
     a key one level deeper. -/
 def wfCFG (G : CFG) : Bool :=
   decide ((AList.keys G.rules).Nodup) &&
-  AList.contains G.start G.rules && (G.start.2.1.2 == 0) &&
+  AList.contains G.start G.rules && (G.start.2.1.2 == 0) && (G.start.1.returns == G.start.1) &&
   G.rules.all (fun e =>
     decide ((AList.keys e.2).Nodup) &&
     e.2.all (fun r =>
